@@ -98,6 +98,7 @@ type Exec struct {
 	Races       []Race
 	raceSeen    map[string]bool
 	shadow      map[uintptr]*shadowCell
+	policy      int
 	ClockContended bool // vtime.Now is a scheduling point
 	NoHB        bool
 	MaxPoints   int
@@ -187,6 +188,7 @@ type Options struct {
 	Trace          bool
 	Horizon        time.Duration // virtual time budget (0 = 24h)
 	ClockContended bool
+	Policy         int // default scheduler: 0 = lowest-numbered enabled thread first, 1 = highest-numbered first
 	MaxPoints      int // safety cap on scheduling points (0 = 200000)
 	NoHB           bool
 }
@@ -210,6 +212,7 @@ func Run(opt Options, body func()) *Exec {
 		finished: make(chan struct{}, 1),
 		exited:   make(chan struct{}),
 		ClockContended: opt.ClockContended,
+		policy: opt.Policy,
 		MaxPoints: opt.MaxPoints,
 		NoHB: opt.NoHB,
 	}
@@ -429,9 +432,17 @@ func (e *Exec) pick(from *Thread) *Thread {
 		if from != nil && from.enabled() {
 			en = append(en, from)
 		}
-		for _, t := range e.threads {
-			if t != from && t.enabled() {
-				en = append(en, t)
+		if e.policy == 1 {
+			for i := len(e.threads) - 1; i >= 0; i-- {
+				if t := e.threads[i]; t != from && t.enabled() {
+					en = append(en, t)
+				}
+			}
+		} else {
+			for _, t := range e.threads {
+				if t != from && t.enabled() {
+					en = append(en, t)
+				}
 			}
 		}
 		if len(en) > 0 {
